@@ -294,18 +294,23 @@ Definition prec_table_spec : Prop :=
 
 Lemma prec_table_spec_holds : prec_table_spec.
 Proof.
-  unfold prec_table_spec. repeat split.
-  - intros a b; destruct a, b; reflexivity.
-  - destruct a; vm_compute; lia.
-  - destruct a; vm_compute; lia.
-  - vm_compute; lia.
-  - intro H. destruct t; try discriminate H;
-      first [ now (exists BOr) | now (exists BAnd) | now (exists BEq) | now (exists BNe) | now (exists BLt) | now (exists BLe)
-            | now (exists BGt) | now (exists BGe) | now (exists BAdd) | now (exists BSub) | now (exists BMul) | now (exists BDiv) | now (exists BMod) ].
-  - intros [o ->]. destruct o; reflexivity.
-  - intros t Hb H1 H2. destruct t; try reflexivity; try discriminate Hb; congruence.
-  - unfold loop_continues. intro H. apply Nat.ltb_lt. exact H.
-  - unfold loop_continues. intro H. apply Nat.ltb_lt. exact H.
+  unfold prec_table_spec.
+  split; [|split; [|split; [|split; [|split; [|split; [|split]]]]]].
+  - (* order of the binary levels *) intros a b; destruct a, b; reflexivity.
+  - (* lowest < binary < unary *) intro a; split; destruct a; vm_compute; lia.
+  - (* unary < index *) vm_compute; lia.
+  - (* dot = index *) reflexivity.
+  - (* is_binary_op = the operator table *)
+    intro t; split.
+    + intro H. destruct t; try discriminate H;
+        first [ now (exists BOr) | now (exists BAnd) | now (exists BEq) | now (exists BNe) | now (exists BLt) | now (exists BLe)
+              | now (exists BGt) | now (exists BGe) | now (exists BAdd) | now (exists BSub) | now (exists BMul) | now (exists BDiv) | now (exists BMod) ].
+    + intros [o ->]. destruct o; reflexivity.
+  - (* no other token has a power *)
+    intros t Hb H1 H2. destruct t; try reflexivity; try discriminate Hb; congruence.
+  - (* right operand parsed at the operator's own power *) intro p; reflexivity.
+  - (* loop continues on strictly greater power only *)
+    intros p b; unfold loop_continues; apply Nat.ltb_lt.
 Qed.
 
 (* the facts the Pratt argument uses, extracted once; below this point the
